@@ -66,8 +66,8 @@ def c11_extra(prop, tier, rng, result):
     judged by the property itself (error, or exactly the stored snapshot)."""
     cov = result['coverage']
     viol = []
-    nimg = 3 if tier == 'quick' else 30
-    per_img = 220 if tier == 'quick' else 4000
+    nimg = 3 if tier == 'quick' else 12
+    per_img = 220 if tier == 'quick' else 1500
     sess = C.Session('mvcc')
     recs = []
     kinds = {}
@@ -205,7 +205,7 @@ def c12_extra(prop, tier, rng, result):
     """every file-system step of StoreToDisk as a crash point, every write budget in a range."""
     cov = result['coverage']
     viol = []
-    nimg = 3 if tier == 'quick' else 25
+    nimg = 3 if tier == 'quick' else 12
     sess = C.Session('mvcc')
     recs = []
     crash_points = 0
